@@ -1,6 +1,7 @@
 """C07 - independent implementations of the same problem agree."""
 import json
 import flow
+import burn_corr as BC
 import harness as H
 import routes_oracle as RO
 from props import c01
@@ -11,6 +12,7 @@ UNITS = [
                     dict(gen='Noh2Cog', pfx='noh2cog', n=4, spec=c01.G, rt=c01.noh2_rt)],
               oracle=RO.oracle),
     flow.Unit('wrappers', groups=['catalogue'], props=['props/C07_wrappers.v'], oracle=RO.oracle),
+    flow.Unit('kenamond1-2d-3d', groups=[], props=['props/C07_burn.v'], custom_corr=BC.unit_corr, oracle=BC.oracle),
 ]
 
 
